@@ -28,7 +28,9 @@ WITNESS = ["a01", "a1", "a001", "a10", "a9", "a01b01", "a1b1", "a01b1", "a1b01",
 USE_POOL = ["a", "b", "A", "B", "a1", "a01", "a10", "a2", "_a", "a_b", "ab", "aB", "Ab", "AB", "A_B",
             "r#a", "r#fn", "a::b", "a::B", "a::*", "a::{self}", "a::{b, c}", "a::b::c", "crate::a",
             "self::a", "super::a", "::a", "a as z", "a as y", "a::b as x", "core", "std", "alloc",
-            "Z", "z9", "z10", "z09", "Zz", "zZ", "ZZ"]
+            "Z", "z9", "z10", "z09", "Zz", "zZ", "ZZ",
+            # underscore-led names without lower-case letters; raw / plain twins with aliases
+            "_A", "_AB", "_1", "_Ab", "r#a as x", "r#a as w", "r#a::b", "a::r#b", "a as x", "A as x"]
 MOD_POOL = ["a", "b", "A", "B", "a1", "a01", "a10", "a2", "_a", "a_b", "ab", "aB", "AB", "r#fn",
             "z9", "z10", "z09", "Zz"]
 
@@ -195,7 +197,8 @@ def run(tier, seed, replay=None):
     with Scratch("c11") as sc:
         n_pairs = 0
         for kind, pool in (("use", USE_POOL), ("mod", MOD_POOL), ("extern", MOD_POOL[:10])):
-            pl = pool if tier == "thorough" else pool[: (26 if kind == "use" else 12)]
+            pl = pool if tier == "thorough" else \
+                ((pool[:16] + pool[-12:]) if kind == "use" else pool[:12])
             if kind == "extern":
                 pl = [p for p in pl if not p.startswith("r#")]
             for se in ("2015", "2024"):
